@@ -236,7 +236,11 @@ func RunRating(env *Env, prefix, in, out string) error {
 			done := make(chan uint32, 1)
 			go func() {
 				defer func() { _ = recover() }()
-				done <- processor.VerifGetUnitCost(ue, 1, sur)
+				v, ok := processor.VerifGetUnitCost(ue, 1, sur)
+				if !ok {
+					client["unavailable"] = true
+				}
+				done <- v
 			}()
 			select {
 			case v := <-done:
